@@ -9,7 +9,7 @@ use std::sync::Arc;
 use std::time::Duration;
 
 use crate::cancel::Cancel;
-use crate::coroutine_impl::{co_cancel_data, run_coroutine, CoroutineImpl, EventSource};
+use crate::coroutine_impl::{co_cancel_data, co_get_handle, run_coroutine, CoroutineImpl, EventSource};
 use crate::scheduler::get_scheduler;
 use crate::sync::atomic_dur::AtomicDuration;
 use crate::sync::AtomicOption;
@@ -210,6 +210,10 @@ impl EventSource for Park {
     // register the coroutine to the park
     fn subscribe(&mut self, co: CoroutineImpl) {
         let cancel = co_cancel_data(&co);
+        // once the coroutine is registered another thread can resume it and it may run to
+        // its end: hold its handle so that the cancel data stays valid until we are done
+        // (this park keeps only itself alive, the coroutine may wait on a park it does not own)
+        let _handle = co_get_handle(&co);
         // if we share the same park, the previous timer may wake up it by false
         // if we not deleted the timer in time
         let dur = self.timeout.take();
